@@ -349,10 +349,21 @@ def replay_fit(ck, em, rec, rng, reported, outcomes):
     rstate = int(rs.randint(0, 1000))
     scn.update({"r_U": r_U, "r_V": r_V, "random_state": rstate})
 
+    used_before = rng.random() < 0.4
+    scn["machine_used_before_training"] = used_before
+
     def machine():
         if kind == "ISV":
-            return em.ISVMachine(ubm=ubm, r_U=r_U, em_iterations=iters, random_state=rstate)
-        return em.JFAMachine(ubm=ubm, r_U=r_U, r_V=r_V, em_iterations=iters, random_state=rstate)
+            m = em.ISVMachine(ubm=ubm, r_U=r_U, em_iterations=iters, random_state=rstate)
+        else:
+            m = em.JFAMachine(ubm=ubm, r_U=r_U, r_V=r_V, em_iterations=iters, random_state=rstate)
+        if used_before:
+            # a machine with a past: its subspaces were assigned through the setters and it has enrolled and
+            # scored a client before being trained (whatever it remembers must not reach the workers' copies)
+            m.U = np.array(m.U) * 0.5 + 0.1
+            model = m.enroll(bm.fresh(stats)[:2])
+            m.score(model, bm.fresh(stats)[:1])
+        return m
 
     def labels():
         return list(y) if y_as == "list" else np.array(y)
